@@ -40,15 +40,64 @@ func main() {
 		Run:  run})
 }
 
+type held struct {
+	Name string `json:"name"`
+	Excl bool   `json:"excl"`
+}
+
 type site struct {
 	Type  string `json:"type"`
 	Field string `json:"field"`
 	Fn    string `json:"fn"`
 	Kind  string `json:"kind"`
 	Sync  string `json:"sync"`
+	Held  []held `json:"held"`
 	Init  bool   `json:"init"`
 	File  string `json:"file"`
 	Line  int    `json:"line"`
+}
+
+func (s site) holds(m string) bool {
+	for _, h := range s.Held {
+		if h.Name == m && (h.Excl || s.Kind != "w") {
+			return true
+		}
+	}
+	return false
+}
+
+// conflict mirrors Mcp.Lockset.conflict.
+func conflict(a, b site) bool {
+	if !(a.Kind == "w" || b.Kind == "w") || !(a.Sync == "plain" || b.Sync == "plain") {
+		return false
+	}
+	for _, h := range a.Held {
+		if a.holds(h.Name) && b.holds(h.Name) {
+			return false
+		}
+	}
+	return true
+}
+
+// canonicalPair: the smallest pair of functions whose access records of the field conflict — the stable name of
+// "this field races" (which pairs a run actually observes varies with the schedule).
+func (f *tableField) canonicalPair() (string, string, bool) {
+	b1, b2, ok := "", "", false
+	for _, a := range f.Sites {
+		for _, b := range f.Sites {
+			if a.Init || b.Init || !conflict(a, b) {
+				continue
+			}
+			f1, f2 := a.Fn, b.Fn
+			if f2 < f1 {
+				f1, f2 = f2, f1
+			}
+			if !ok || f1 < b1 || (f1 == b1 && f2 < b2) {
+				b1, b2, ok = f1, f2, true
+			}
+		}
+	}
+	return b1, b2, ok
 }
 
 type tableField struct {
@@ -62,6 +111,7 @@ type tableField struct {
 type table struct {
 	Fields []tableField `json:"fields"`
 	byLine map[string][]site
+	undisc map[string]bool
 }
 
 func loadTable(c *hk.Ctx, root, repo string) (*table, error) {
@@ -81,11 +131,14 @@ func loadTable(c *hk.Ctx, root, repo string) (*table, error) {
 	if err != nil {
 		return nil, err
 	}
-	t := &table{byLine: map[string][]site{}}
+	t := &table{byLine: map[string][]site{}, undisc: map[string]bool{}}
 	if err := json.Unmarshal(b, t); err != nil {
 		return nil, err
 	}
 	for _, f := range t.Fields {
+		if !f.Disciplined {
+			t.undisc[f.Type+"."+f.Field] = true
+		}
 		for _, s := range f.Sites {
 			k := s.File + ":" + strconv.Itoa(s.Line)
 			t.byLine[k] = append(t.byLine[k], s)
@@ -154,7 +207,7 @@ func runJobs(c *hk.Ctx, bin string, jobs []job, parallel int) []jobResult {
 			cmd := exec.CommandContext(ctx, bin)
 			cmd.Env = append(os.Environ(), "VERIF_RACES_CHILD="+j.scenario, fmt.Sprintf("VERIF_RACES_SEED=%d", j.seed),
 				fmt.Sprintf("VERIF_RACES_SCALE=%d", j.scale), fmt.Sprintf("GOMAXPROCS=%d", j.procs),
-				"GORACE=halt_on_error=0 history_size=5 log_path="+logBase, "VERIF_RACES_SUBLOG="+logBase+"_sub", "GOTRACEBACK=single")
+				"GORACE=halt_on_error=0 exitcode=0 history_size=5 log_path="+logBase, "VERIF_RACES_SUBLOG="+logBase+"_sub", "GOTRACEBACK=single")
 			var so, se bytes.Buffer
 			cmd.Stdout, cmd.Stderr = &so, &se
 			t0 := time.Now()
@@ -252,12 +305,17 @@ type finding struct {
 	Type, Field, F1, F2 string
 	Pointee             bool
 	Mapped              bool
+	External            bool // the racing memory belongs to another package and is not reached through a tracked field
+	OneSided            bool // only one of the two stacks leads to the (unsynchronised) field: no model line
 	Where               [2]string
 	Text                string
 	Scenarios           map[string]int
 }
 
 func (f *finding) fingerprint() string {
+	if f.External {
+		return fmt.Sprintf("races:external:%s+%s", f.F1, f.F2)
+	}
 	star := ""
 	if f.Pointee {
 		star = "*"
@@ -266,10 +324,24 @@ func (f *finding) fingerprint() string {
 }
 
 // classify maps one report to (field, function pair).
+//
+// Per stack, three candidate sets in order of directness: (1) the tracked-field accesses on the line of the first
+// library frame, (2) those on the lines of the next library frames (the memory was handed down as an argument),
+// (3) those anywhere in the function of the first library frame (the function works on a local that is, or will be,
+// reachable through the field — e.g. a map filled before it is stored without synchronisation).  The most direct
+// combination with a common field wins; anything but (1)×(1) with a write site is a race on memory BEHIND the field.
 func classify(r report, t *table, repo, harnessDir string) finding {
-	var cand [2][]site
+	var sets [2][3][]site
 	var where [2]string
 	var top [2]bool
+	fnOf := func(a access) string {
+		for _, f := range a.frames {
+			if strings.HasPrefix(f.file, repo+"/") {
+				return normFn(f.fn)
+			}
+		}
+		return ""
+	}
 	for k := 0; k < 2; k++ {
 		rel, line, isTop, ok := repoFrame(r.acc[k], repo)
 		if !ok {
@@ -288,68 +360,154 @@ func classify(r report, t *table, repo, harnessDir string) finding {
 		}
 		where[k] = rel + ":" + strconv.Itoa(line)
 		top[k] = isTop
-		for _, s := range t.byLine[where[k]] {
-			if !s.Init {
-				cand[k] = append(cand[k], s)
+		live := func(ss []site, plainOnly bool) []site {
+			var out []site
+			for _, s := range ss {
+				if !s.Init && (!plainOnly || s.Sync == "plain") {
+					out = append(out, s)
+				}
 			}
+			return out
 		}
-		if len(cand[k]) == 0 { // an access the extractor put into the construction phase
-			cand[k] = append(cand[k], t.byLine[where[k]]...)
+		sets[k][0] = live(t.byLine[where[k]], false)
+		if len(sets[k][0]) == 0 { // an access the extractor put into the construction phase
+			sets[k][0] = append(sets[k][0], t.byLine[where[k]]...)
+		}
+		seenFirst, deeper := false, 0
+		for _, f := range r.acc[k].frames {
+			if !strings.HasPrefix(f.file, repo+"/") {
+				continue
+			}
+			if !seenFirst {
+				seenFirst = true
+				continue
+			}
+			if deeper++; deeper > 4 {
+				break
+			}
+			sets[k][1] = append(sets[k][1], live(t.byLine[strings.TrimPrefix(f.file, repo+"/")+":"+strconv.Itoa(f.line)], true)...)
+		}
+		want := fnOf(r.acc[k])
+		for _, fl := range t.Fields {
+			for _, s := range fl.Sites {
+				if !s.Init && s.Sync == "plain" && strings.TrimPrefix(strings.TrimPrefix(s.Fn, "session."), "sseutil.") == want {
+					sets[k][2] = append(sets[k][2], s)
+				}
+			}
 		}
 	}
 	best := finding{Where: where, Text: r.text}
-	bestScore := -1
-	for _, a := range cand[0] {
-		for _, b := range cand[1] {
-			if a.Type != b.Type || a.Field != b.Field {
-				continue
-			}
-			score := 0
-			for k, s := range []site{a, b} {
-				if top[k] {
-					if (r.acc[k].op == "write") == (s.Kind == "w") {
-						score += 2
+	combos := [][2]int{{0, 0}, {0, 1}, {1, 0}, {0, 2}, {2, 0}, {1, 1}, {1, 2}, {2, 1}, {2, 2}}
+	for _, cb := range combos {
+		bestScore := -1
+		direct := cb[0] == 0 && cb[1] == 0
+		for _, a := range sets[0][cb[0]] {
+			for _, b := range sets[1][cb[1]] {
+				if a.Type != b.Type || a.Field != b.Field {
+					continue
+				}
+				score := 0
+				for k, s := range []site{a, b} {
+					switch {
+					case cb[k] == 0 && top[k]:
+						if (r.acc[k].op == "write") == (s.Kind == "w") {
+							score += 2
+						}
+					case s.Kind == "w":
+						score += 3
+					case s.Kind == "u":
+						score++
 					}
-				} else if s.Kind != "r" {
-					score++
+				}
+				f1, f2 := a.Fn, b.Fn
+				if f2 < f1 {
+					f1, f2 = f2, f1
+				}
+				c := finding{Type: a.Type, Field: a.Field, F1: f1, F2: f2, Pointee: !direct || (a.Kind != "w" && b.Kind != "w"),
+					Mapped: true, Where: where, Text: r.text}
+				if score > bestScore || (score == bestScore && c.fingerprint() < best.fingerprint()) {
+					best, bestScore = c, score
 				}
 			}
-			f1, f2 := a.Fn, b.Fn
+		}
+		if best.Mapped {
+			return best
+		}
+	}
+	// one stack leads to an UNSYNCHRONISED field, the other works on memory that became reachable through it (bytes
+	// of a string, entries of a map built before the store): same defect as the field's own race
+	{
+		var pick *site
+		pickK, pickScore := 0, -1
+		for level := 0; level < 3 && pick == nil; level++ {
+			for k := 0; k < 2; k++ {
+				for i := range sets[k][level] {
+					s := &sets[k][level][i]
+					if !t.undisc[s.Type+"."+s.Field] {
+						continue
+					}
+					score := map[string]int{"w": 2, "u": 1, "r": 0}[s.Kind]
+					if score > pickScore || (score == pickScore && pick != nil && s.Type+"."+s.Field < pick.Type+"."+pick.Field) {
+						pick, pickK, pickScore = s, k, score
+					}
+				}
+			}
+		}
+		if pick != nil {
+			other := fnOf(r.acc[1-pickK])
+			if other == "" {
+				if n := len(r.acc[1-pickK].frames); n > 0 {
+					other = strings.TrimSuffix(r.acc[1-pickK].frames[n-1].fn, "()")
+				}
+			}
+			f1, f2 := pick.Fn, other
 			if f2 < f1 {
 				f1, f2 = f2, f1
 			}
-			c := finding{Type: a.Type, Field: a.Field, F1: f1, F2: f2, Pointee: a.Kind != "w" && b.Kind != "w", Mapped: true, Where: where, Text: r.text}
-			if score > bestScore || (score == bestScore && c.fingerprint() < best.fingerprint()) {
-				best, bestScore = c, score
-			}
+			return finding{Type: pick.Type, Field: pick.Field, F1: f1, F2: f2, Pointee: true, Mapped: true, OneSided: true, Where: where, Text: r.text}
 		}
 	}
-	if !best.Mapped {
-		// name the functions from the frames so that the fingerprint is still stable
-		fn := func(a access) string {
-			for _, f := range a.frames {
-				if strings.HasPrefix(f.file, repo+"/") {
-					s := f.fn
-					if i := strings.LastIndex(s, "/"); i >= 0 {
-						s = s[i+1:]
-					}
-					s = strings.TrimSuffix(s, "()")
-					s = strings.NewReplacer("(*", "", ")", "").Replace(s)
-					if i := strings.Index(s, "."); i >= 0 {
-						s = s[i+1:]
-					}
-					return regexp.MustCompile(`\.func\d+(\.\d+)*$`).ReplaceAllString(s, "")
-				}
-			}
-			return "?"
+	// no tracked field in sight: name the functions from the frames so that the fingerprint is still stable — the
+	// library function, or, for a stack that never enters the library, the function the goroutine runs
+	fn := func(a access) string {
+		if s := fnOf(a); s != "" {
+			return s
 		}
-		best.Type, best.Field = "?", "?"
-		best.F1, best.F2 = fn(r.acc[0]), fn(r.acc[1])
-		if best.F2 < best.F1 {
-			best.F1, best.F2 = best.F2, best.F1
+		if n := len(a.frames); n > 0 {
+			return strings.TrimSuffix(a.frames[n-1].fn, "()")
 		}
+		return "?"
 	}
+	best.Type, best.Field = "?", "?"
+	best.F1, best.F2 = fn(r.acc[0]), fn(r.acc[1])
+	if best.F2 < best.F1 {
+		best.F1, best.F2 = best.F2, best.F1
+	}
+	// memory of another package (neither access is made by library code itself)
+	best.External = !top[0] && !top[1]
 	return best
+}
+
+var funcSuffixRe = regexp.MustCompile(`(\.func\d+|\.gowrap\d+|-fm)(\.\d+)*$`)
+
+// normFn: "trpc.group/trpc-go/trpc-mcp-go.(*T).m.func1()" -> "T.m"; "…/internal/session.(*Session).GetID()" -> "Session.GetID".
+func normFn(s string) string {
+	if i := strings.LastIndex(s, "/"); i >= 0 {
+		s = s[i+1:]
+	}
+	s = strings.TrimSuffix(s, "()")
+	if i := strings.Index(s, "."); i >= 0 {
+		s = s[i+1:]
+	}
+	s = strings.NewReplacer("(*", "", ")", "").Replace(s)
+	for {
+		t := funcSuffixRe.ReplaceAllString(s, "")
+		if t == s {
+			break
+		}
+		s = t
+	}
+	return s
 }
 
 // ---------------------------------------------------------------------------------------------------------------
@@ -401,7 +559,7 @@ func run(c *hk.Ctx) {
 			jobs = append(jobs, job{sc, []int{4, 8}[i%2], c.Seed, 1})
 		}
 		// the scenarios that carry most of the known races run a second time on fewer processors
-		for _, sc := range []string{"cli-streamable", "srv-streamable", "srv-resume"} {
+		for _, sc := range []string{"cli-streamable", "srv-streamable", "srv-resume", "cli-first"} {
 			jobs = append(jobs, job{sc, 2, c.Seed + 100, 1})
 		}
 	}
@@ -463,30 +621,95 @@ func run(c *hk.Ctx) {
 		}
 	}
 	sort.Strings(order)
+	fieldOf := map[string]*tableField{}
+	for i := range t.Fields {
+		fieldOf[t.Fields[i].Type+"."+t.Fields[i].Field] = &t.Fields[i]
+	}
 	confirmed := map[string]bool{}
 	var unmapped []string
+	// reports per racy field (one violation per field: which function pairs a run observes depends on the schedule,
+	// whether the field races does not), everything else per observed pair
+	type group struct {
+		pairs     []string
+		scenarios map[string]int
+		where     []string
+		text      string
+	}
+	groups := map[string]*group{}
+	var gorder []string
 	for _, fp := range order {
 		f := found[fp]
-		op := map[string]any{"c": "races.predict", "type": f.Type, "field": f.Field, "f1": f.F1, "f2": f.F2, "pointee": f.Pointee}
-		c.Emit(op, map[string]any{"predicted": true}, f.Mapped, "report:"+map[bool]string{true: "tracked-field", false: "unmapped"}[f.Mapped])
-		if f.Mapped && !f.Pointee {
-			confirmed[f.Type+"."+f.Field] = true
+		if f.External {
+			c.Count(fp, true, nil, "report:external-memory")
+		} else if f.OneSided {
+			c.Count(fp, true, nil, "report:behind-unsynchronised-field")
+		} else {
+			// every observed (field, pair) must be predicted by the model's table
+			op := map[string]any{"c": "races.predict", "type": f.Type, "field": f.Field, "f1": f.F1, "f2": f.F2, "pointee": f.Pointee}
+			c.Emit(op, map[string]any{"predicted": true}, f.Mapped, "report:"+map[bool]string{true: "tracked-field", false: "unmapped"}[f.Mapped])
 		}
-		if !f.Mapped {
+		key := f.Type + "." + f.Field
+		if f.Mapped && !f.Pointee {
+			confirmed[key] = true
+		}
+		if !f.Mapped && !f.External {
 			unmapped = append(unmapped, fp+" @ "+f.Where[0]+" | "+f.Where[1])
 		}
-		what := fmt.Sprintf("data race on %s.%s between %s and %s", f.Type, f.Field, f.F1, f.F2)
+		gk := fp
+		if f.Mapped && undisciplined[key] {
+			gk = "field:" + key // also the races on memory behind an unsynchronised field: same defect
+		}
+		g := groups[gk]
+		if g == nil {
+			g = &group{scenarios: map[string]int{}, text: f.Text}
+			groups[gk] = g
+			gorder = append(gorder, gk)
+		}
+		star := ""
 		if f.Pointee {
-			what = fmt.Sprintf("data race on the object behind %s.%s, used by %s and %s", f.Type, f.Field, f.F1, f.F2)
+			star = " (memory behind the field)"
+		}
+		g.pairs = append(g.pairs, f.F1+" + "+f.F2+star)
+		g.where = append(g.where, f.Where[0]+" / "+f.Where[1])
+		for sc, n := range f.Scenarios {
+			g.scenarios[sc] += n
+		}
+		if f.Mapped && !f.Pointee && strings.Contains(g.text, "failed to restore the stack") {
+			g.text = f.Text
+		}
+	}
+	for _, gk := range gorder {
+		g := groups[gk]
+		text := g.text
+		if len(text) > 2600 {
+			text = text[:2600]
+		}
+		if strings.HasPrefix(gk, "field:") {
+			key := strings.TrimPrefix(gk, "field:")
+			tf := fieldOf[key]
+			f1, f2, ok := tf.canonicalPair()
+			if !ok {
+				f1, f2 = "?", "?"
+			}
+			c.Violate(hk.Violation{Fingerprint: fmt.Sprintf("races:%s:%s+%s", key, f1, f2),
+				What: fmt.Sprintf("data race on %s (no common mutex / not atomic; first conflicting pair of the lock table: %s + %s); the race detector reported the pairs %v at %v in scenarios %v",
+					key, f1, f2, g.pairs, g.where, g.scenarios),
+				Input: map[string]any{"scenarios": g.scenarios, "observed_pairs": g.pairs, "sites": g.where}, Observed: text,
+				Expected: "no unsynchronised conflicting accesses (Go memory model)"})
+			continue
+		}
+		f := found[gk]
+		what := fmt.Sprintf("data race on the object behind %s.%s (the field itself is disciplined), used by %s and %s", f.Type, f.Field, f.F1, f.F2)
+		if !f.Pointee {
+			what = fmt.Sprintf("data race on %s.%s between %s and %s — a field the lock table calls disciplined", f.Type, f.Field, f.F1, f.F2)
 		}
 		if !f.Mapped {
 			what = fmt.Sprintf("data race between %s and %s at a location the field table does not cover", f.F1, f.F2)
 		}
-		text := f.Text
-		if len(text) > 2600 {
-			text = text[:2600]
+		if f.External {
+			what = fmt.Sprintf("data race inside another package's memory, reached from %s and %s", f.F1, f.F2)
 		}
-		c.Violate(hk.Violation{Fingerprint: fp, What: what + fmt.Sprintf(" (%s; scenarios %v)", strings.Join(f.Where[:], " / "), f.Scenarios),
+		c.Violate(hk.Violation{Fingerprint: gk, What: what + fmt.Sprintf(" (%s; scenarios %v)", strings.Join(f.Where[:], " / "), f.Scenarios),
 			Input: map[string]any{"scenarios": f.Scenarios, "sites": f.Where}, Observed: text,
 			Expected: "no unsynchronised conflicting accesses (Go memory model)"})
 	}
